@@ -785,3 +785,55 @@ pub fn split_outputs(m_kind: Kind, volatile_last: bool) -> Vec<Universe> {
         graphs,
     }]
 }
+
+/// runs of 2..=4 Ephemerals below an Always consumer (`h -> ... -> l -> k:Always`): the Ephemerals are
+/// needed in every evaluation.  Optionally the head also feeds an Output and the last one also reads an
+/// Output.  Used with every node declaration order (the requirement is established at start-up, in
+/// declaration order).
+pub fn eph_chains_below_always() -> Vec<Universe> {
+    let mut out = Vec::new();
+    for k in 2..=4usize {
+        for head_out in [false, true] {
+            for last_in in [false, true] {
+                let mut jobs: Vec<JobDef> = (0..k).map(|i| JobDef::new(&format!("e{}", i), Kind::E)).collect();
+                jobs.push(JobDef::new("k", Kind::A));
+                let mut edges: Vec<Edge> = (0..k).map(|i| Edge { up: i, down: i + 1, read: true, parts: vec![] }).collect();
+                if head_out {
+                    jobs.push(JobDef::new("o1", Kind::O));
+                    edges.push(Edge { up: 0, down: jobs.len() - 1, read: true, parts: vec![] });
+                }
+                if last_in {
+                    jobs.push(JobDef::new("o2", Kind::O));
+                    edges.push(Edge { up: jobs.len() - 1, down: k - 1, read: true, parts: vec![] });
+                }
+                out.push(Universe {
+                    label: format!("ephchainA{}:{}{}", k, if head_out { "h" } else { "-" }, if last_in { "l" } else { "-" }),
+                    graphs: vec![Graph { jobs, edges }],
+                });
+            }
+        }
+    }
+    out
+}
+
+/// every single-graph universe three times: as declared, with the nodes declared in reverse order, and
+/// with the edges declared in reverse order (for analyses that run inside one universe, like follow-ups)
+pub fn with_declaration_variants(us: Vec<Universe>) -> Vec<Universe> {
+    let mut out = Vec::new();
+    for u in us {
+        let g = u.graphs[0].clone();
+        let n = g.n();
+        let mut rev_nodes = g.clone();
+        rev_nodes.jobs.reverse();
+        for e in rev_nodes.edges.iter_mut() {
+            e.up = n - 1 - e.up;
+            e.down = n - 1 - e.down;
+        }
+        let mut rev_edges = g.clone();
+        rev_edges.edges.reverse();
+        out.push(Universe { label: format!("{}:rev-nodes", u.label), graphs: vec![rev_nodes] });
+        out.push(Universe { label: format!("{}:rev-edges", u.label), graphs: vec![rev_edges] });
+        out.push(u);
+    }
+    out
+}
